@@ -50,3 +50,128 @@ mod discharge {
         assert!(c as u32 == x as u32);
     }
 }
+
+// ---------------------------------------------------------------------------------------------------------------------
+// Counterexample harnesses: the executable renderings of the contracts (xspec.rs, shared with the native replayer) run
+// against the real code on symbolic inputs. Used after Verus rejects an obligation, to obtain concrete values through
+// Kani's concrete playback, and in the thorough tier as a second, *bounded* back end (bounds: <= 24 bits, <= 4 bytes,
+// <= 3 events, one Keyboard operation from any frame/prefix state). Never counted as proof.
+use pc_keyboard::layouts::*;
+include!("xgen.rs");
+include!("xspec.rs");
+
+#[cfg(kani)]
+mod cex {
+    use super::*;
+
+    #[kani::proof]
+    fn word() {
+        let w: u16 = kani::any();
+        kani::assume(w < 2048);
+        assert!(scenario_word(w, false));
+    }
+
+    #[kani::proof]
+    #[kani::unwind(26)]
+    fn bits() {
+        let bits: u32 = kani::any();
+        let n: u8 = kani::any();
+        let clear_at: u8 = kani::any();
+        kani::assume(n <= 24);
+        assert!(scenario_bits(bits, n, clear_at, false));
+    }
+
+    #[kani::proof]
+    #[kani::unwind(6)]
+    fn stream1() {
+        let b0: u8 = kani::any();
+        let b1: u8 = kani::any();
+        let b2: u8 = kani::any();
+        let b3: u8 = kani::any();
+        let n: u8 = kani::any();
+        kani::assume(n <= 4);
+        assert!(scenario_stream(1, [b0, b1, b2, b3], n, false));
+    }
+
+    #[kani::proof]
+    #[kani::unwind(6)]
+    fn stream2() {
+        let b0: u8 = kani::any();
+        let b1: u8 = kani::any();
+        let b2: u8 = kani::any();
+        let b3: u8 = kani::any();
+        let n: u8 = kani::any();
+        kani::assume(n <= 4);
+        assert!(scenario_stream(2, [b0, b1, b2, b3], n, false));
+    }
+
+    #[kani::proof]
+    #[kani::unwind(5)]
+    fn events() {
+        let k0: u8 = kani::any();
+        let k1: u8 = kani::any();
+        let k2: u8 = kani::any();
+        let s0: u8 = kani::any();
+        let s1: u8 = kani::any();
+        let s2: u8 = kani::any();
+        let modes: u8 = kani::any();
+        let n: u8 = kani::any();
+        kani::assume(k0 < X_NKEYS && k1 < X_NKEYS && k2 < X_NKEYS && s0 < 3 && s1 < 3 && s2 < 3 && modes < 8 && n <= 3);
+        assert!(scenario_events([k0, k1, k2], [s0, s1, s2], modes, n, false));
+    }
+
+    /// `pre_bits` is a constant of the harness so that CBMC knows how many bits are pending
+    fn keyboard(set: u8, pre_bits: u8) {
+        let bits: u16 = kani::any();
+        let p0: u8 = kani::any();
+        let pre_bytes: u8 = kani::any();
+        let op: u8 = kani::any();
+        let arg: u16 = kani::any();
+        let probe: u8 = kani::any();
+        kani::assume(pre_bytes <= 2 && op < 6 && bits < 1024);
+        kani::assume(p0 == 0xE0 || p0 == 0xE1 || p0 == 0xF0);
+        kani::assume((arg & 0xFF) < X_NKEYS as u16 || op != 4);
+        assert!(scenario_keyboard(set, bits, pre_bits, [p0, 0xF0], pre_bytes, op, arg, probe, false));
+    }
+
+    #[kani::proof]
+    #[kani::unwind(24)]
+    fn keyboard1_p0() {
+        keyboard(1, 0);
+    }
+
+    #[kani::proof]
+    #[kani::unwind(24)]
+    fn keyboard1_p10() {
+        keyboard(1, 10);
+    }
+
+    #[kani::proof]
+    #[kani::unwind(24)]
+    fn keyboard2_p0() {
+        keyboard(2, 0);
+    }
+
+    #[kani::proof]
+    #[kani::unwind(24)]
+    fn keyboard2_p4() {
+        keyboard(2, 4);
+    }
+
+    #[kani::proof]
+    #[kani::unwind(24)]
+    fn keyboard2_p10() {
+        keyboard(2, 10);
+    }
+
+    #[kani::proof]
+    fn layout_total() {
+        let layout: u8 = kani::any();
+        let form: u8 = kani::any();
+        let key: u8 = kani::any();
+        let mods: u16 = kani::any();
+        let mode: bool = kani::any();
+        kani::assume(layout < X_NLAYOUTS && form < 3 && key < X_NKEYS && mods < 512);
+        assert!(scenario_layout_total(layout, form, key, mods, mode, false));
+    }
+}
